@@ -435,7 +435,9 @@ def _run_localbkg(case):
 SHAPE_COLS = ('covar_sigx2', 'covar_sigy2', 'covar_sigxy', 'semimajor_sigma',
               'semiminor_sigma', 'orientation', 'eccentricity', 'elongation',
               'ellipticity', 'fwhm', 'cxx', 'cyy', 'cxy',
-              'equivalent_radius', 'xcentroid', 'ycentroid', 'area')
+              'equivalent_radius', 'xcentroid', 'ycentroid', 'area',
+              'segment_flux', 'segment_fluxerr', 'background_sum',
+              'background_mean', 'min_value', 'max_value')
 
 
 def _shape_scene(scen):
@@ -465,9 +467,12 @@ def _shape_scene(scen):
     if scen['nan']:
         img[25, 31] = np.nan
         img[30, 10] = np.nan
+    if scen.get('inf'):
+        img[10, 11] = np.inf        # non-finite but not NaN
+        img[23, 30] = -np.inf
     conv = None
     if scen['conv']:
-        conv = ndimage.uniform_filter(np.nan_to_num(img), 3)
+        conv = ndimage.uniform_filter(np.where(np.isfinite(img), img, 0.0), 3)
     return img, segarr, mask, conv
 
 
@@ -480,6 +485,18 @@ def _shape_oracle(src, data, segarr, mask, lab):
         ~mask[ys, xs] if mask is not None else True)).sum())
     out = dict(area=area if area else np.nan,
                equivalent_radius=np.sqrt(area / np.pi) if area else np.nan)
+    fin = np.isfinite(data[ys, xs]) & (~mask[ys, xs] if mask is not None
+                                       else True)
+    H, W = data.shape
+    err = 0.5 + 0.01 * xs + 0.02 * ys
+    bkg = 0.1 + 0.003 * xs - 0.001 * ys
+    if area:
+        dv = data[ys, xs][fin]
+        out.update(segment_flux=dv.sum(),
+                   segment_fluxerr=np.sqrt((err[fin] ** 2).sum()),
+                   background_sum=bkg[fin].sum(),
+                   background_mean=bkg[fin].mean(), min_value=dv.min(),
+                   max_value=dv.max())
     v = np.where(good, np.maximum(np.where(good, src[ys, xs], 0.0), 0), 0.0)
     nanall = dict.fromkeys(SHAPE_COLS, np.nan)
     if not area or v.sum() == 0:
@@ -519,8 +536,12 @@ def _shape_check(scen):
     img, segarr, mask, conv = _shape_scene(scen)
     with warnings.catch_warnings():
         warnings.simplefilter('ignore')
+        yy_, xx_ = np.mgrid[:img.shape[0], :img.shape[1]]
         cat = SourceCatalog(img, SegmentationImage(segarr), mask=mask,
-                            convolved_data=conv, progress_bar=False)
+                            convolved_data=conv,
+                            error=0.5 + 0.01 * xx_ + 0.02 * yy_,
+                            background=0.1 + 0.003 * xx_ - 0.001 * yy_,
+                            progress_bar=False)
         got = {c: np.asarray(getattr(getattr(cat, c), 'value',
                                      getattr(cat, c)), float)
                for c in SHAPE_COLS}
@@ -554,7 +575,7 @@ def _run_shape(case):
     def fn(ctx):
         scen = dict(mask=ctx.choice('mask', ['none', 'through', 'single']),
                     nan=ctx.flag('nan'), neg=ctx.flag('neg'),
-                    conv=ctx.flag('conv'))
+                    conv=ctx.flag('conv'), inf=ctx.flag('inf'))
         if case.get('twin'):
             scen['twin'] = True
         ctx.stats.obligations += 1
